@@ -102,26 +102,33 @@ def eval_exact(t, env, pars=None):
 
 
 def robust_zero(t, env, pars):
-    """The term evaluates to exactly 0.0 in plain double arithmetic as well (e.g. a sum of squares at the origin)."""
-    import math as _m
-
+    """The term is zero without any cancellation: with every leaf replaced by its absolute value and every subtraction by an
+    addition it is still 0 (a sum of squares at the origin; not 0.3 + 0.2 - 0.5, which is +-1e-17 in doubles depending on the
+    order of summation)."""
     def go(u):
         k = u['k']
         if k == 'const':
-            return u['q'][0] / u['q'][1]
+            return abs(Fr(u['q'][0], u['q'][1]))
         if k == 'var':
-            return float(env[name_of(u['n'])])
+            return abs(Fr(env[name_of(u['n'])]))
         if k == 'par':
-            return float((pars or {})[u['p']])
+            return abs(Fr((pars or {})[u['p']]))
         if k == 'un':
             a = go(u['a'])
-            f = u['f']
-            return {'neg': lambda z: -z, 'abs': abs, 'sqrt': _m.sqrt, 'sin': _m.sin, 'tan': _m.tan, 'sinh': _m.sinh, 'tanh': _m.tanh,
-                    'asin': _m.asin, 'atan': _m.atan, 'asinh': _m.asinh, 'atanh': _m.atanh}.get(f, lambda z: float('nan'))(a)
+            if u['f'] in ('neg', 'abs', 'sqrt', 'sin', 'tan', 'sinh', 'tanh', 'asin', 'atan', 'asinh', 'atanh'):
+                return a          # these vanish exactly where their argument does; only "zero or not" matters here
+            return Fr(1)
         l, r = go(u['l']), go(u['r'])
-        return {'+': lambda: l + r, '-': lambda: l - r, '*': lambda: l * r, '/': lambda: l / r, '**': lambda: l ** r}[u['op']]()
+        op = u['op']
+        if op in '+-':
+            return l + r
+        if op == '*':
+            return l * r
+        if op == '/':
+            return l if r != 0 else Fr(1)
+        return l if r != 0 else Fr(1)      # a ** b vanishes with a (b > 0 assumed irrelevant: only used when the value is 0)
     try:
-        return go(t) == 0.0
+        return go(t) == 0
     except Exception:
         return False
 
